@@ -339,3 +339,63 @@ def replay_chunk(cases, extra):
             m["hist"] = [h["a"] for h in rec["hist"]]
             out.append(m)
     return out
+
+
+# ------------------------------------------------------------------ the core commands (specs/CoreCommands.tla)
+def commands_chunk(cases, extra):
+    from engine.core import setup_repo_path
+    setup_repo_path()
+    from pedal.core.report import Report
+    from pedal.core.formatting import HtmlFormatter
+    from pedal.core import commands as K
+    from pedal.core.feedback import Feedback
+    out = []
+    for idx, rec in cases:
+        c, exp = rec["cell"], rec["exp"]
+        r = Report()
+        if c["fmt"] == "html":
+            r.set_formatter(HtmlFormatter(r))
+        items = ["item %d of the call" % k for k in range(1, c["n"] + 1)]
+        text = "the instructor's own words"
+        kw = {"report": r}
+        if c["mode"] == "message":
+            kw["message"] = text
+            want_one = text
+        else:
+            kw["message_template"] = "about {thing} and {count}"
+            kw["thing"], kw["count"] = "apples", 3
+            want_one = "about apples and 3"
+        obs = {"raised": None}
+        ret = None
+        try:
+            if c["cmd"] == "log":
+                ret = K.log(*items, report=r)
+            elif c["cmd"] == "debug":
+                ret = K.debug(*items, report=r)
+            elif c["cmd"] == "give_partial":
+                ret = K.give_partial(0.5, **kw)
+            elif c["cmd"] == "feedback":
+                ret = K.feedback(**kw)
+            else:
+                ret = getattr(K, c["cmd"])(**kw)
+        except Exception as e:
+            obs["raised"] = "%s: %s" % (type(e).__name__, e)
+        objs = list(r.feedback)
+        obs["count_active"], obs["count_ignored"] = len(r.feedback), len(r.ignored_feedback)
+        obs["messages"] = [f.message for f in objs]
+        obs["truth"] = bool(ret) if isinstance(ret, Feedback) else None
+        want = []
+        for k, says in enumerate(exp["says"]):
+            want.append(items[k] if says == "item" else " ".join(items) if says == "joined" else want_one)
+        bad = []
+        if obs["raised"]:
+            bad.append("raised")
+        if obs["count_active"] != exp["count"] or obs["count_ignored"] != 0:
+            bad.append("recorded-once")
+        elif obs["messages"] != want:
+            bad.append("message")
+        if obs["truth"] is False:
+            bad.append("truth")
+        if bad:
+            out.append({"cell": c, "fields": bad, "observed": obs, "expected_messages": want})
+    return out
